@@ -770,6 +770,26 @@ func ruleR12g(c *Ctx) *RuleResult {
 				bad = append(bad, "field "+n+" (read by Size() / start of traversal) is not reset by Clear()")
 			}
 		}
+		// a ring is empty exactly when start == end (and not full): Clear must leave the two indices equal
+		if fieldByName(st, "start") != nil && fieldByName(st, "end") != nil {
+			var sv, ev string
+			for _, ef := range g.Effects {
+				if storeToField(ef, "start") && ef.Args[0].Args[0].String() == "p:0" {
+					sv = noEpoch(ef.Args[1])
+				}
+				if storeToField(ef, "end") && ef.Args[0].Args[0].String() == "p:0" {
+					ev = noEpoch(ef.Args[1])
+				}
+			}
+			switch {
+			case sv != "" && sv == ev:
+				facts = append(facts, "start = end = "+sv)
+			case sv == "" && ev == "":
+				bad = append(bad, "Clear() resets neither ring index: after clearing a partially filled ring start != end while Size() is 0")
+			default:
+				bad = append(bad, fmt.Sprintf("Clear() leaves the ring indices unequal (start := %q, end := %q): the next Enqueue recomputes a wrong size from them", sv, ev))
+			}
+		}
 		if len(bad) > 0 {
 			r.add(Obligation{Key: key, Rule: "R12clear", Clause: clClr, Pos: p.FuncPos(clr), Status: Violated, Facts: strings.Join(bad, "\n")})
 		} else if len(facts) == 0 {
